@@ -1845,7 +1845,7 @@ fn check_group_case(c: &mut Case, s: &GroupSpec) {
 fn main() {
     let mut run = Run::new();
     let thorough = run.args.thorough();
-    let (n_root, n_group, many_max): (u64, u64, u64) = if thorough { (250_000, 250_000, 40) } else { (3_000, 3_000, 9) };
+    let (n_root, n_group, many_max): (u64, u64, u64) = if thorough { (250_000, 250_000, 40) } else { (9_000, 9_000, 9) };
     let seed = seed_root();
     let (mut root_samples, mut group_samples) = (0, 0);
     run.extra("versions", json!(VERS.iter().map(|v| v.1).collect::<Vec<_>>()));
